@@ -123,6 +123,10 @@ func (c14) Plan(tier string) []core.Segment {
 		{Gen: "small", Profile: small, Count: gen.Size("small", small), Exhaustive: true},
 		{Gen: "lines", Profile: "default", Count: scale(tier, 600_000, 8_000_000)},
 		{Gen: "lines", Profile: "lf", Count: scale(tier, 600_000, 8_000_000)},
+		{Gen: "limits", Profile: "default", Count: scale(tier, 12_000, 300_000), Desc: "documents on numeric thresholds (labels of 999 characters with line endings inside, 8 KiB read window, ...)"},
+		{Gen: "defsplit", Profile: "default", Count: scale(tier, 150_000, 4_000_000), Desc: "definition-like paragraphs cut into lines at every place, inside containers with space/tab/partly consumed tab prefixes and hostile bytes right after the prefix"},
+		{Gen: "modeldoc", Profile: "full", Count: scale(tier, 100_000, 3_000_000), Desc: "Markdown of model documents: nested containers, structural tabs, laziness, multi-line inline constructs"},
+		{Gen: "modeldoc", Profile: "deep", Count: scale(tier, 10_000, 300_000), Desc: "Markdown of model documents: nested containers, structural tabs, laziness, multi-line inline constructs", Batch: 2000},
 		{Gen: "soup", Profile: "default", Count: scale(tier, 450_000, 6_000_000)},
 		{Gen: "soup", Profile: "tabfree", Count: scale(tier, 300_000, 4_000_000)},
 		{Gen: "soup", Profile: "html", Count: scale(tier, 150_000, 2_000_000)},
@@ -152,8 +156,18 @@ func (c14) Directed() []core.Directed {
 func crlfOf(x []byte) []byte { return bytes.ReplaceAll(x, []byte("\n"), []byte("\r\n")) }
 func crOf(x []byte) []byte   { return bytes.ReplaceAll(x, []byte("\n"), []byte("\r")) }
 
-func render2(b []byte) (def, safe []byte, blocks []*cm.RootBlock, refs cm.ReferenceMap) {
-	blocks, refs, _ = core.ParseCopy(b)
+// render2 parses b in memory (sched < 0) or through the streaming parser under the
+// given read schedule, and renders the result twice.
+func render2(b []byte, sched int, seed uint64) (def, safe []byte, blocks []*cm.RootBlock, refs cm.ReferenceMap) {
+	if sched < 0 {
+		blocks, refs, _ = core.ParseCopy(b)
+	} else {
+		data := append([]byte(nil), b...)
+		_, chunk, zeros, eofData := scheduleChunk(sched, core.NewRand(seed), data)
+		sr := &SchedReader{Data: data, Chunk: chunk, Zeros: zeros, EOFWithData: eofData, FailAt: -1}
+		res := StreamParse(sr, nil, data, true)
+		blocks, refs = res.Blocks, res.Refs
+	}
 	def = core.RenderDefault(blocks, refs)
 	safe = core.RenderSafe(blocks, refs)
 	return
@@ -162,6 +176,17 @@ func render2(b []byte) (def, safe []byte, blocks []*cm.RootBlock, refs cm.Refere
 func (c14) Check(ctx *core.Ctx, c *core.Case) {
 	x := c.Input
 	rnd := core.NewRand(c.Seed)
+	// Two cases in three go through Parse; the third goes through the streaming parser
+	// (the property names no entry point), every variant of it under the same kind of
+	// read schedule: 1-byte reads, small random reads, or reads cut inside CRLF pairs.
+	sched := -1
+	if c.Seed%3 == 0 && len(x) <= 64*1024 {
+		sched = []int{1, 5, 8, 4}[c.Seed/3%4]
+		ctx.Inc("cases_through_streaming_parser")
+	}
+	render2 := func(b []byte) ([]byte, []byte, []*cm.RootBlock, cm.ReferenceMap) {
+		return render2(b, sched, c.Seed)
+	}
 	hDef, hSafe, blocks, refs := render2(x)
 	if ctx.Verbose {
 		ctx.Log("%s\nhtml: %s", core.DumpBlocks(blocks, refs), core.Quote(hDef))
@@ -285,6 +310,10 @@ func (c16) Plan(tier string) []core.Segment {
 		{Gen: "specprefix", Count: gen.PrefixCount(), Exhaustive: true},
 		{Gen: "small", Profile: small, Count: gen.Size("small", small), Exhaustive: true},
 		{Gen: "lines", Profile: "default", Count: scale(tier, 750_000, 10_000_000)},
+		{Gen: "limits", Profile: "default", Count: scale(tier, 12_000, 300_000), Desc: "documents on numeric thresholds"},
+		{Gen: "defsplit", Profile: "default", Count: scale(tier, 150_000, 4_000_000), Desc: "definition-like paragraphs cut into lines at every place, inside containers with space/tab/partly consumed tab prefixes and hostile bytes right after the prefix"},
+		{Gen: "modeldoc", Profile: "full", Count: scale(tier, 100_000, 3_000_000), Desc: "Markdown of model documents: nested containers, structural tabs, laziness, multi-line inline constructs"},
+		{Gen: "modeldoc", Profile: "deep", Count: scale(tier, 10_000, 300_000), Desc: "Markdown of model documents: nested containers, structural tabs, laziness, multi-line inline constructs", Batch: 2000},
 		{Gen: "lines", Profile: "hostile", Count: scale(tier, 150_000, 2_000_000)},
 		{Gen: "soup", Profile: "default", Count: scale(tier, 600_000, 8_000_000)},
 		{Gen: "soup", Profile: "crnul", Count: scale(tier, 150_000, 2_000_000)},
@@ -375,6 +404,10 @@ func (c09) Plan(tier string) []core.Segment {
 	return []core.Segment{
 		{Gen: "spec", Profile: "tabfree", Count: gen.CorpusSize(), Exhaustive: true},
 		{Gen: "lines", Profile: "tabfree", Count: scale(tier, 750_000, 10_000_000)},
+		{Gen: "limits", Profile: "tabfree", Count: scale(tier, 12_000, 300_000), Desc: "documents on numeric thresholds"},
+		{Gen: "defsplit", Profile: "tabfree", Count: scale(tier, 150_000, 4_000_000), Desc: "definition-like paragraphs cut into lines at every place, inside containers with space/tab/partly consumed tab prefixes and hostile bytes right after the prefix"},
+		{Gen: "modeldoc", Profile: "full", Count: scale(tier, 100_000, 3_000_000), Desc: "Markdown of model documents: nested containers, structural tabs, laziness, multi-line inline constructs"},
+		{Gen: "modeldoc", Profile: "deep", Count: scale(tier, 10_000, 300_000), Desc: "Markdown of model documents: nested containers, structural tabs, laziness, multi-line inline constructs", Batch: 2000},
 		{Gen: "soup", Profile: "tabfree", Count: scale(tier, 600_000, 8_000_000)},
 		{Gen: "specmut", Profile: "tabfree", Count: scale(tier, 450_000, 6_000_000)},
 		{Gen: "small", Profile: "c16:5", Count: gen.Size("small", "c16:5"), Exhaustive: true},
